@@ -5,6 +5,7 @@ import (
 	"encoding/json"
 	"fmt"
 	"math/rand"
+	"net/url"
 	"os"
 	"path/filepath"
 	"regexp"
@@ -25,6 +26,7 @@ type Fault struct {
 	At   int    `json:"at"`
 	Frac int    `json:"frac,omitempty"`
 	Arg  string `json:"arg,omitempty"`
+	Val  string `json:"val,omitempty"`
 }
 
 type Call struct {
@@ -259,6 +261,132 @@ var invalids = []string{"pattern", "regexp2", "multipleOf", "maxLength", "enum",
 var readers = []string{"bytes", "bytes", "onebyte", "dataerr", "half"}
 var creds = []string{"header", "basic+query", "bearer", "header", "none", "wrong"}
 
+// hostileTexts are values an intermediary (or a careless peer) may put where a parameter is expected.
+var hostileTexts = []string{"", " ", "1 ", " 1", "+1", "-", "--1", "1.0", "1e3", "0x10", "1_000", "９", "99999999999999999999", "-99999999999999999999",
+	"2147483648", "NaN", "Inf", "true", "null", "1,2", "1;2", "\x7f", "a:b", "://x", "http://[::1", "http://h:port/", "2021-13-45", "2021-02-30", "2021-1-2",
+	"0000-00-00", "3fa85f64-5717-4562-b3fc-2c963f66afa", "zfa85f64-5717-4562-b3fc-2c963f66afa6", "{}", "[]", "256.1.1.1", "1.2.3", "P1D", "1h", "-1s",
+	"2021-01-02 03:04:05", "12", "delta", "Alpha", strings.Repeat("1", 5000), strings.Repeat("a", 70000)}
+
+// rawEscapes go on the wire as they are: escapes that decode to nothing sensible.
+var rawEscapes = []string{"%zz", "%", "%4", "a%00b", "%C0%AF", "%FF%FE", "%2", "1%"}
+
+// sampleMangle draws a rewrite of one piece of the request head. targets: e.g. "query:n32", "header#1", "path:2".
+func sampleMangle(rng *rand.Rand, targets []string) *Fault {
+	t := targets[rng.Intn(len(targets))]
+	text := hostileTexts[rng.Intn(len(hostileTexts))]
+	f := &Fault{Kind: "mangle", Arg: t}
+	switch {
+	case strings.HasPrefix(t, "query"):
+		f.Val = url.QueryEscape(text)
+		if rng.Intn(6) == 0 {
+			f.Val = rawEscapes[rng.Intn(len(rawEscapes))]
+		}
+	case strings.HasPrefix(t, "path"):
+		f.Val = url.PathEscape(text)
+		if text == "" {
+			f.Val = "%20"
+		}
+	default:
+		// header and cookie values go as they are; what net/http refuses to write is not sent at all
+		for len(text) > 4000 || strings.ContainsAny(text, "\x7f\x00\r\n") {
+			text = hostileTexts[rng.Intn(len(hostileTexts))]
+		}
+		f.Val = text
+	}
+	return f
+}
+
+// mangledText is the text the server's decoder is handed for a mangled piece ("" , false when that depends on
+// net/http's own leniency and is not judged).
+func mangledText(f *Fault) (string, bool) {
+	switch {
+	case strings.HasPrefix(f.Arg, "query"):
+		t, err := url.QueryUnescape(f.Val)
+		return t, err == nil
+	case strings.HasPrefix(f.Arg, "path"):
+		t, err := url.PathUnescape(f.Val)
+		return t, err == nil
+	case strings.HasPrefix(f.Arg, "header"):
+		return strings.TrimSpace(f.Val), true
+	case strings.HasPrefix(f.Arg, "cookie"):
+		for _, c := range f.Val {
+			if !(c >= '0' && c <= '9' || c >= 'a' && c <= 'z' || c >= 'A' && c <= 'Z' || c == '.' || c == '+' || c == '-') {
+				return "", false
+			}
+		}
+		return f.Val, true
+	}
+	return "", false
+}
+
+var (
+	reDate = regexp.MustCompile(`^[0-9]{4}-[0-9]{2}-[0-9]{2}$`)
+	reIPv4 = regexp.MustCompile(`^[0-9]{1,3}(\.[0-9]{1,3}){3}$`)
+)
+
+// certainlyInvalid: no reading of the OpenAPI type admits the text. (Deliberately coarse: what a lenient parser
+// might accept - a leading plus, other UUID spellings - is not judged.)
+func certainlyInvalid(typ, text string) bool {
+	if strings.TrimSpace(text) == "" {
+		return false
+	}
+	switch typ {
+	case "int32", "int64", "int":
+		digits := 0
+		for _, c := range text {
+			switch {
+			case c >= '0' && c <= '9':
+				digits++
+			case c == '+' || c == '-':
+			default:
+				return true
+			}
+		}
+		if digits == 0 || digits > 19 {
+			return true
+		}
+		if typ == "int32" && digits > 10 {
+			return true
+		}
+		return false
+	case "uuid":
+		hex := 0
+		for _, c := range text {
+			if c >= '0' && c <= '9' || c >= 'a' && c <= 'f' || c >= 'A' && c <= 'F' {
+				hex++
+			}
+		}
+		return hex < 32 || strings.ContainsAny(text, "zZ ")
+	case "date":
+		return !reDate.MatchString(text)
+	case "date-time":
+		return !strings.ContainsAny(text, "Tt") || len(text) < 20
+	case "ipv4":
+		if !reIPv4.MatchString(text) {
+			return true
+		}
+		for _, o := range strings.Split(text, ".") {
+			if len(o) == 3 && o > "255" {
+				return true
+			}
+		}
+		return false
+	case "kind":
+		return text != "alpha" && text != "beta" && text != "gamma"
+	}
+	return false
+}
+
+// worldParamTypes: the typed parameters of the world an intermediary can be aimed at, per operation.
+var worldParamTypes = map[string]map[string]string{
+	"echoShapes": {"query:n32": "int32", "query:id": "uuid", "query:when": "date", "query:at": "date-time", "query:addr": "ipv4", "header:X-Num": "int64", "cookie:cnum": "int", "path:2": "kind",
+		"query:link": "", "query:ratio": "", "query:dur": "", "query:big": "", "header:X-Flag": ""},
+	"echoJSON":   {"path:2": "int64", "header:X-Req": "", "query:q": "", "cookie:sess": ""},
+	"echoStream": {"header:X-Len": "int"},
+	"echoParams": {"path:3": "", "query:csv": "", "header:X-List": "", "cookie:ck": ""},
+	"secure":     {"query:who": ""},
+}
+
 // Mode selects the fault distribution.
 type Mode int
 
@@ -349,6 +477,17 @@ func sampleCall(rng *rand.Rand, mode Mode) Call {
 			c.Fault = &Fault{Kind: "flip", Frac: 0, At: rng.Intn(1200)}
 		case 13:
 			c.Fault = &Fault{Kind: []string{"dup", "replay"}[rng.Intn(2)]}
+		}
+		if pt := worldParamTypes[c.Op]; pt != nil && rng.Intn(3) == 0 {
+			var targets []string
+			for t := range pt {
+				targets = append(targets, t)
+			}
+			sort.Strings(targets)
+			c.Fault = sampleMangle(rng, targets)
+			if rng.Intn(8) == 0 && strings.HasPrefix(c.Fault.Arg, "query:") {
+				c.Fault = &Fault{Kind: "dup-query", Arg: strings.TrimPrefix(c.Fault.Arg, "query:")}
+			}
 		}
 		if c.Op == "echoForm" && rng.Intn(4) == 0 {
 			c.Fault = &Fault{Kind: []string{"drop-field", "drop-field", "dup-field"}[rng.Intn(3)], Arg: []string{"name", "age", "nick", "langs"}[rng.Intn(4)]}
@@ -623,6 +762,14 @@ func oracleC15(r *CallRecord) []problem {
 			// multipart closing delimiter), the complete request; never partial data
 			if !(s.HandlerCalls == 0 && s.Status == 400) && !(s.HandlerCalls == 1 && s.ServerSaw == r.ExpectServerSaw && r.Call.Invalid == "") {
 				add("a body cut or broken in flight is answered 400 and never reaches the handler with partial data", fmt.Sprintf("delivery %d: status %d, handler calls %d, handler saw %s", i, s.Status, s.HandlerCalls, clip(s.ServerSaw, 160)))
+			}
+		case k == "mangle":
+			if typ := worldParamTypes[r.Call.Op][r.Call.Fault.Arg]; typ != "" {
+				if text, ok := mangledText(r.Call.Fault); ok && certainlyInvalid(typ, text) {
+					if s.HandlerCalls != 0 || (s.Status != 400 && !(s.Status == 404 && strings.HasPrefix(r.Call.Fault.Arg, "path"))) {
+						add("a parameter that no reading of its type admits is answered 400 and never reaches the handler", fmt.Sprintf("delivery %d: %s (%s) rewritten to %q: status %d, handler calls %d, handler saw %s", i, r.Call.Fault.Arg, typ, clip(text, 60), s.Status, s.HandlerCalls, clip(s.ServerSaw, 200)))
+					}
+				}
 			}
 		case k == "drop-field" && r.Call.Invalid == "" && (r.Call.Op == "echoForm" || r.Call.Op == "echoMultipart"):
 			required := r.Call.Fault.Arg == "name" || r.Call.Fault.Arg == "file"
